@@ -380,6 +380,16 @@ func (c *Float) Ident() string {
 			}
 			return fmt.Sprintf("0x%c%04X", hexPrefix, bits)
 		}
+		if !c.X.IsInf() && c.X.MantExp(nil) > 16 {
+			// Beyond the largest half (a decimal literal out of range): the
+			// value rounds to infinity; binary16.NewFromBig returns the bits of
+			// a NaN for it.
+			bits := binary16.Inf.Bits()
+			if c.X.Signbit() {
+				bits = binary16.NegInf.Bits()
+			}
+			return fmt.Sprintf("0x%c%04X", hexPrefix, bits)
+		}
 		if c.X.IsInf() || !float.IsExact16(c.X) {
 			f, acc := binary16.NewFromBig(c.X)
 			if acc != big.Exact {
